@@ -7,6 +7,7 @@
     edit <key> <srchex>                               → <obs>       (Op.edit: fresh mtime from the clock)
     run <force 0|1>                                   → <obs>
     preload                                           → <obs>       (`Modules.libralies()` in a fresh process)
+    grammar <pathhex>                                 → <obs>       (Op.grammar: another grammar file, fresh mtime)
     clear | enable <0|1>                              → <obs>
     delete #<i> | trunc #<i> <k>                      → <obs>       (i = index into the canonical listing)
 
@@ -29,23 +30,19 @@ def balanced : Nat → Str → Bool
 
 def toySem : Sem where
   treeIdent g t := s2l s!"T{g}m{t}"
-  parserIdent g := s2l s!"P{g}"
+  parserIdent gp st al g := s2l ("P" ++ ((Str.hex (gp ++ ['|'] ++ st ++ ['|'] ++ al)).replace "-" "e") ++ s!"m{g}")
   hash s := s2l ("H" ++ (Str.hex s).replace "-" "e")
   identL hs := 'L' :: Str.join ['x'] hs
-  parserBlob g := s2l ("{" ++ s!"lark{g}" ++ "}")
-  parse src := '{' :: (src ++ ['}'])
+  entry p h := s2l ((Str.hex p).replace "-" "e") ++ 'y' :: h
+  parserBlob _ _ _ g := s2l ("{" ++ s!"lark{g}" ++ "}")
+  parse _ src := '{' :: (src ++ ['}'])
   importsOf tree := ((Str.splitOn ';' (inner tree)).headD []) |> Str.splitOn ',' |>.filter (· ≠ [])
   analyse key tree views := '{' :: (key ++ '=' :: (((Str.splitOn ';' (inner tree)).getD 1 []) ++ '|' :: (Str.join [','] views ++ ['}'])))
+  encTab t := t
+  decTab t := if balanced 0 t then some t else none
   view t := t
   render key tree db := key ++ ':' :: tree ++ Str.join [';'] (db.map (·.2))
   valid d := balanced 0 d
-
-/-- lexicographic order by code point (Python's `str` order) -/
-def strLt : Str → Str → Bool
-  | [], [] => false
-  | [], _ :: _ => true
-  | _ :: _, [] => false
-  | a :: as, b :: bs => if a.toNat < b.toNat then true else if b.toNat < a.toNat then false else strLt as bs
 
 def extOf (p : Str) : Str := if Str.endsWith p binExt then binExt else if Str.endsWith p jsonExt then jsonExt else []
 
@@ -73,7 +70,9 @@ def bool01 (s : String) : Option Bool := if s == "1" then some true else if s ==
 def step' (w : World) : List String → World × String
   | ["init", g, e] =>
     match g.toNat?, bool01 e with
-    | some g, some e => ({ grammarMtime := g, enabled := e, clock := g + 1 }, "ok")
+    | some g, some e =>
+      let w0 : World := { grammarMtime := g, enabled := e, clock := g + 1 }
+      ({ w0 with grammar := s2l "grammar.lark", start := s2l "file_input", algo := s2l "lalr" }, "ok")
     | _, _ => (w, "bad-op")
   | ["lib", key] => ({ w with libs := w.libs ++ [s2l key] }, "ok")
   | ["mod", key, src, t, target] =>
@@ -96,6 +95,10 @@ def step' (w : World) : List String → World × String
     -- `Modules.libralies()` in a fresh process
     let s := w.libs.foldl (loadMod toySem (fuelOf w)) ({ w := w } : Sess)
     (s.w, obs s.w (match s.err with | none => "ok" | some e => "err:" ++ e.toString) s.log)
+  | ["grammar", path] =>
+    match Str.unhex path with
+    | some path => let w := step toySem w (.grammar path); (w, obs w "ok" [])
+    | none => (w, "bad-op")
   | ["clear"] => let w := step toySem w .clear; (w, obs w "ok" [])
   | ["enable", b] =>
     match bool01 b with
